@@ -33,7 +33,8 @@ import (
 )
 
 type job struct {
-	Src string // Go-syntax (WaGo) source
+	Src  string // Go-syntax (WaGo) source, converted by go2wa; or
+	IsWa bool   // Src is already .wa text
 }
 
 type jobRes struct {
@@ -48,9 +49,13 @@ func handle(raw json.RawMessage) interface{} {
 	if err := json.Unmarshal(raw, &j); err != nil {
 		return jobRes{Stage: "bad-job", Msg: err.Error()}
 	}
-	wa, err := wrun.Go2Wa(j.Src)
-	if err != nil {
-		return jobRes{Stage: "go2wa", Msg: err.Error()}
+	wa := j.Src
+	var err error
+	if !j.IsWa {
+		wa, err = wrun.Go2Wa(j.Src)
+		if err != nil {
+			return jobRes{Stage: "go2wa", Msg: err.Error()}
+		}
 	}
 	var wat []byte
 	if p := mc.Recover(func() { _, wat, _, err = api.BuildFile(api.DefaultConfig(), "c16.wa", wa) }); p != "" {
@@ -85,7 +90,7 @@ type outcome struct {
 
 var (
 	reItemName = regexp.MustCompile(`T\d+(N\d+|[gprmS])?\b`)
-	rePos      = regexp.MustCompile(`\b[\w./-]*?([\w-]+\.(?:go|wa|wat)):\d+(:\d+)?:?`)
+	rePos      = regexp.MustCompile(`(?:[^\s:"]*/)?([\w-]+\.(?:go|wa|wat)):\d+(:\d+)?:?`)
 	reNum      = regexp.MustCompile(`\b\d+\b`)
 	reHex      = regexp.MustCompile(`0x[0-9a-fA-F]+`)
 	reCase     = regexp.MustCompile(`Case\d+`)
@@ -143,11 +148,11 @@ type runner struct {
 }
 
 // runPrograms runs the sources and returns their outcomes.
-func (x *runner) runPrograms(srcs []string) []outcome {
+func (x *runner) runPrograms(srcs []string, isWa bool) []outcome {
 	out := make([]outcome, len(srcs))
 	wasms := make([][]byte, len(srcs))
 	var mu sync.Mutex
-	x.pool.Run(len(srcs), func(i int) interface{} { return job{Src: srcs[i]} }, 10*time.Minute, func(res mc.Result) {
+	x.pool.Run(len(srcs), func(i int) interface{} { return job{Src: srcs[i], IsWa: isWa} }, 10*time.Minute, func(res mc.Result) {
 		x.r.Evals.Add(1)
 		var o outcome
 		switch res.Status {
@@ -253,7 +258,7 @@ func main() {
 			}
 		}
 		r.Bound("corpus_programs", len(srcs))
-		outs := x.runPrograms(srcs)
+		outs := x.runPrograms(srcs, false)
 		for i, o := range outs {
 			fam := strings.SplitN(names[i], "#", 2)[0]
 			if o.stage == "ok" {
@@ -270,7 +275,9 @@ func main() {
 	}
 
 	// ---------------------------------------------------------------- types family
-	items := progs.TypeItems(depth)
+	nreps := mc.Pick(r, 1, 2)
+	r.Bound("binary_constructor_representatives", nreps)
+	items := progs.TypeItems(depth, nreps)
 	if s := os.Getenv("C16_LIMIT"); s != "" {
 		var n int
 		fmt.Sscan(s, &n)
@@ -291,6 +298,9 @@ func main() {
 		if ia.Context != ib.Context {
 			return ia.Context < ib.Context
 		}
+		if ia.Outer != ib.Outer {
+			return ia.Outer < ib.Outer
+		}
 		return ia.Skel < ib.Skel
 	})
 	per := 32
@@ -307,9 +317,9 @@ func main() {
 	var failures []failure
 	var notes []failure
 	nOK := 0
-	render := func(bs [][]progs.TypeItem) []string {
+	render := func(bs [][]progs.TypeItem, wa bool) []string {
 		srcs := make([]string, len(bs))
-		mc.ParallelFor(len(bs), func(i int) { srcs[i] = progs.RenderTypeProgram(bs[i]) })
+		mc.ParallelFor(len(bs), func(i int) { srcs[i] = progs.RenderTypeProgram(bs[i], wa) })
 		return srcs
 	}
 	first := true
@@ -318,12 +328,13 @@ func main() {
 			r.Cap("deadline")
 			break
 		}
-		srcs := render(batches)
+		srcs := render(batches, true)
 		if first {
-			// Go must accept every generated program
+			// Go must accept every generated program (the Go rendering of the same items)
+			gsrcs := render(batches, false)
 			var mu sync.Mutex
-			mc.ParallelFor(len(srcs), func(i int) {
-				if err := goCheck(srcs[i]); err != nil {
+			mc.ParallelFor(len(gsrcs), func(i int) {
+				if err := goCheck(gsrcs[i]); err != nil {
 					mu.Lock()
 					r.HarnessError("generator wrote a program Go rejects: %v (first item %s in %s)", err, batches[i][0].Shape, batches[i][0].Context)
 					mu.Unlock()
@@ -331,7 +342,7 @@ func main() {
 			})
 			first = false
 		}
-		outs := x.runPrograms(srcs)
+		outs := x.runPrograms(srcs, true)
 		var next [][]progs.TypeItem
 		for i, o := range outs {
 			b := batches[i]
@@ -341,7 +352,7 @@ func main() {
 					r.Distinct("ok|" + it.Skel + "|" + it.Context)
 				}
 				if len(b) > 0 && r.WantSample() {
-					r.Sample(map[string]any{"items": len(b), "first_item": b[0].Shape + " in " + b[0].Context, "outcome": "compiles, V8 validates", "go_source_head": clip(srcs[i], 400)})
+					r.Sample(map[string]any{"items": len(b), "first_item": b[0].Shape + " in " + b[0].Context, "outcome": "compiles, V8 validates", "wa_source_head": clip(srcs[i], 400)})
 				}
 				continue
 			}
@@ -369,16 +380,18 @@ func main() {
 	sort.Slice(failures, func(a, b int) bool { return failures[a].item.Index < failures[b].item.Index })
 	sort.Slice(notes, func(a, b int) bool { return notes[a].item.Index < notes[b].item.Index })
 	seen := map[string]bool{}
+	classCount := map[string]int{}
 	for _, f := range failures {
-		key := "C16|types|" + f.out.stage + "|" + normMsg(f.out.msg) + "|" + f.item.Skel + "|" + f.item.Context
+		key := "C16|types|" + f.out.stage + "|" + normMsg(f.out.msg) + "|" + f.item.Outer + "|" + f.item.Context
 		r.Distinct(f.out.stage + "|" + f.item.Skel + "|" + f.item.Context)
+		classCount[key]++
 		if seen[key] {
 			continue
 		}
 		seen[key] = true
-		src := progs.RenderTypeProgram([]progs.TypeItem{f.item})
+		src := progs.RenderTypeProgram([]progs.TypeItem{f.item}, true)
 		// confirm three more times, alone
-		conf := x.runPrograms([]string{src, src, src})
+		conf := x.runPrograms([]string{src, src, src}, true)
 		same := true
 		for _, c := range conf {
 			if c.stage != f.out.stage || normMsg(c.msg) != normMsg(f.out.msg) {
@@ -390,19 +403,20 @@ func main() {
 			continue
 		}
 		r.Report(key, fmt.Sprintf("type %s in context %s: %s: %s (Go accepts the program; reproduced 4x alone)", f.item.Shape, f.item.Context, f.out.stage, clip(f.out.msg, 300)),
-			map[string]any{"shape": f.item.Shape, "context": f.item.Context, "go_source": src, "stage": f.out.stage, "message": f.out.msg})
+			map[string]any{"shape": f.item.Shape, "context": f.item.Context, "wa_source": src, "go_source": progs.RenderTypeProgram([]progs.TypeItem{f.item}, false), "stage": f.out.stage, "message": f.out.msg})
 	}
 	// notes: programs Go accepts and Wa's front end rejects
 	noteClasses := map[string]int{}
 	var noteList []string
 	for _, n := range notes {
-		k := n.out.stage + "|" + normMsg(n.out.msg) + "|" + n.item.Skel + "|" + n.item.Context
+		k := n.out.stage + "|" + normMsg(n.out.msg) + "|" + n.item.Outer + "|" + n.item.Context
 		if noteClasses[k] == 0 && len(noteList) < 40 {
 			noteList = append(noteList, fmt.Sprintf("%s in %s: %s", n.item.Shape, n.item.Context, clip(n.out.msg, 160)))
 		}
 		noteClasses[k]++
 		r.Distinct("note|" + k)
 	}
+	r.Extra("failing_items_per_key", classCount)
 	r.Extra("items_ok", nOK)
 	r.Extra("items_failing", len(failures))
 	r.Extra("items_rejected_by_wa_front_end_but_accepted_by_go", len(notes))
